@@ -63,7 +63,8 @@ def replay(hist: List[Dict[str, Any]], prekind: str) -> Dict[str, Any]:
         pp = system._post_processor
         pre = [(k[0], f) for k, f in pp._post_processors]
         if [p for p, _ in pre] != [200, 100]:
-            return {"drift": [{"what": "postproc", "step": 0, "spec": {"pre": [200, 100]}, "real": {"pre": [p for p, _ in pre]}}], "bad": []}
+            # the model starts elsewhere: noted, and the clauses are still evaluated on what the real object does
+            drift.append({"what": "postproc", "step": 0, "spec": {"pre": [200, 100]}, "real": {"pre": [p for p, _ in pre]}})
         for p, f in pre:
             fns.append(f)
             prio[len(fns)] = p
@@ -156,9 +157,8 @@ def replay(hist: List[Dict[str, Any]], prekind: str) -> Dict[str, Any]:
             bad.append({"invariant": "FifoAmongEqual", "step": k, "order": order, "priorities": [prio[i] for i in order]})
         elif last and [i for i in order if i in last] != last:
             bad.append({"invariant": "PassesAgree", "step": k, "before": last, "now": order})
-        if order != step["order"] or warned != step["warned"]:
+        if (order != step["order"] or warned != step["warned"]) and not drift:
             drift.append({"what": "postproc", "step": k, "spec": {"order": step["order"], "warned": step["warned"]}, "real": {"order": order, "warned": warned}})
-            break
         last = order
     return {"drift": drift, "bad": bad}
 
